@@ -1097,12 +1097,21 @@ class Proto(NoOp):
             return int.from_bytes(self.arg, "big", signed=False)
 
 
+def _global_name_parts(module: str, attr: str) -> str:
+    """GLOBAL and INST carry their two names as `module attr`, one per line in the pickle: a name that is empty or
+    contains whitespace cannot be told apart from its neighbour again"""
+    for part in (module, attr):
+        if not isinstance(part, str) or not part or any(c.isspace() for c in part):
+            raise ValueError(f"{part!r} cannot be written as a module or attribute name of a GLOBAL / INST opcode")
+    return f"{module} {attr}"
+
+
 class Global(Opcode):
     name = "GLOBAL"
 
     @staticmethod
     def create(module: str, attr: str) -> "Global":
-        return Global(f"{module} {attr}")
+        return Global(_global_name_parts(module, attr))
 
     @property
     def module(self) -> str:
@@ -1159,7 +1168,7 @@ class Inst(StackSliceOpcode):
 
     @staticmethod
     def create(module: str, classname: str) -> "Inst":
-        return Inst(f"{module} {classname}")
+        return Inst(_global_name_parts(module, classname))
 
     @property
     def module(self) -> str:
